@@ -89,9 +89,10 @@ type hitRT struct {
 	respHdr  http.Header
 	payload  []byte
 	lastLen  int  // body length of the most recent request
-	kind     int  // which transport failure (case index)
 	warm     bool // the next exchange is the one before the observed one: a 200 whose body fails after five bytes
 }
+
+var errorCases int
 
 func (rt *hitRT) RoundTrip(req *http.Request) (*http.Response, error) {
 	if rt.warm {
@@ -119,7 +120,8 @@ func (rt *hitRT) RoundTrip(req *http.Request) (*http.Response, error) {
 	if rt.c.Transport == "error" {
 		// the ways a transport fails, in turn: a plain error, the peer closing the connection before any answer (EOF), in the
 		// middle of one, a refused connection, a deadline
-		switch rt.kind % 5 {
+		errorCases++ // (taken in turn over the cases that fail this way, whatever their place in the list)
+		switch errorCases % 5 {
 		case 1:
 			return nil, io.EOF
 		case 2:
@@ -157,7 +159,7 @@ func runHitCase(c *hitCase, seed int64) KV {
 	for i := range payload {
 		payload[i] = byte('a' + (int(seed)+i)%26)
 	}
-	rt := &hitRT{c: c, kind: int(seed), payload: payload, respHdr: http.Header{"Content-Type": {"text/x"}, "X-Multi": {"1", "2"}}}
+	rt := &hitRT{c: c, payload: payload, respHdr: http.Header{"Content-Type": {"text/x"}, "X-Multi": {"1", "2"}}}
 	opts := []func(*vegeta.Attacker){vegeta.Workers(1), vegeta.MaxWorkers(1), vegeta.MaxBody(int64(c.MaxBody)), vegeta.ChunkedBody(c.Chunked)}
 	// the Client option replaces the whole client, so the redirect policy goes after it
 	opts = append(opts, vegeta.Client(&http.Client{Transport: rt}))
